@@ -254,6 +254,10 @@ def run(ctx):
         c01c(ctx, tu)
         n += c01d(ctx, tu)
         protocol.report(ctx, tu, lambda r: r in ("C01.b", "C03.d"))
+        from rules import C05
+        if tu.find(A["seq_cost"]):
+            C05.c05a(ctx, tu)    # "permitted by their sequence constraints": cost / order / can_be_called tables
+            C05.c05b(ctx, tu)
         from rules import C04
         C04.c04b(ctx, tu)   # C01.e (destructor unlinks) is recorded there
         C04.c04e(ctx, tu)   # decommission unlinks every element
